@@ -56,7 +56,7 @@ impl WalRecuperator {
             {
                 if let Some(delete_operation) = analysis.delete_ops.get(&lsn) {
                     if self.table_is_on_disk(delete_operation.object_id()) {
-                        self.undo_delete(delete_operation)?;
+                        self.undo_delete(delete_operation, *redo_transaction)?;
                     }
                 }
                 if let Some(update_operation) = analysis.update_ops.get(&lsn) {
@@ -374,7 +374,11 @@ impl WalRecuperator {
     }
 
     // DML Undo operations
-    fn undo_delete(&mut self, delete_op: &Delete) -> RuntimeResult<()> {
+    fn undo_delete(
+        &mut self,
+        delete_op: &Delete,
+        loser: crate::TransactionId,
+    ) -> RuntimeResult<()> {
         let table_id = delete_op
             .object_id()
             .expect("Table id must be set for DML logs");
@@ -391,10 +395,11 @@ impl WalRecuperator {
         let schema = table.schema();
 
         // A DELETE only marks the row. The mark may never have reached the data file (pages are
-        // written at commit and at checkpoints, the log earlier): then the row is still there,
-        // unmarked - or not there yet, when its INSERT is itself still in the log and the redo
-        // pass is about to bring it back - and there is nothing to take back. Inserting it again
-        // would collide with itself (or with its redo) on a UNIQUE index and fail the recovery.
+        // written at commit and at checkpoints, the log earlier): then the row is still there
+        // without this transaction's mark (unmarked, or with the stale mark of somebody who rolled
+        // back) - or not there yet, when its INSERT is itself still in the log and the redo pass
+        // is about to bring it back - and there is nothing to take back. Inserting it again would
+        // collide with itself (or with its redo) on a UNIQUE index and fail the recovery.
         if let Some(row_id) = delete_op.row_id() {
             let row_id_bytes = UInt64::from(row_id).serialize()?;
             let mut btree = builder.build_tree(table.root());
@@ -404,7 +409,7 @@ impl WalRecuperator {
                 btree.with_cell_at(pos, |bytes| {
                     Tuple::from_slice_unchecked(bytes)
                         .ok()
-                        .is_some_and(|tuple| tuple.is_deleted())
+                        .is_some_and(|tuple| tuple.xmax() == Some(loser))
                 })?
             } else {
                 false
